@@ -654,7 +654,8 @@ class Fam:
         # container-returning strategies (ser_map/ser_lst) are generated only for classes without field-level
         # overrides: a field-level override is re-applied to the element types of the container (known finding
         # field-override-container), which then never terminates
-        if self.allow_container_strategy:
+        # ... and never for a type that the generator also uses as a mapping key (a dict/list is not hashable: to_dict itself fails)
+        if self.allow_container_strategy and key not in ("int", "float", "bool", "str", "datetime.date", "uuid.UUID"):
             if key not in ("str", "bool"):
                 opts += ['{"serialize": ser_map}']
             if key != "str":
